@@ -115,7 +115,7 @@ Section Iface.
 
     Theorem grid_alg_shape (s : GS) (i : GIn T) : GShape st (grid_alg s st i).
     Proof.
-      unfold grid_alg, grid_core. cbv zeta.
+      unfold grid_alg, grid_core, grid_main. cbv zeta.
       set (P := grid_pre s i).
       assert (Hmain : GShape st
         (let '(ec, er) := explicit_counts s P in
